@@ -18,14 +18,14 @@ from vf import S, Lst, B
 LANGS = ('typescript', 'kotlin', 'swift', 'scala', 'go', 'python')
 EXT = {'typescript': 'ts', 'kotlin': 'kt', 'swift': 'swift', 'scala': 'scala', 'go': 'go', 'python': 'py'}
 STUB = str(vf.ROOT / 'lib' / 'pydantic_stub')
-FORWARD = []   # Python modules that only import after a later definition is pre-bound (ordering, C11)
+NAME_ERRORS = []   # Python modules that only import after an unbound name is pre-bound (name resolution: C09 / C11 / C12)
 
 # what each finding class predicts to fail (a failure of another kind on a case of the class is NEW)
 PREDICTS = {
     'C10-scala-package-brace': {'lex', 'template'},
     'C10-scala-default': {'scala-default'},
     'C10-swift-label': {'swift-label'},
-    'C10-python-generic-alias': {'py-import'},
+    'C10-python-generic-alias': {'py-grammar'},
     'C10-python-empty-union': {'py-syntax'},
 }
 
@@ -88,47 +88,92 @@ def gen_programs(rng, n, consts):
 
 
 # ------------------------------------------------------------------ grammar validators on real text
+def py_decl_grammar(tree):
+    """the declaration subset the Python back end emits, over CPython's own AST:
+       module  := (docstring | from-import | NAME '=' expr | NAME ':' type '=' expr | class | def)*
+       class   := 'class' NAME '(' bases ')' ':' (docstring | NAME '=' expr | NAME ':' type ['=' expr] | 'pass')+
+    -> list of complaints"""
+    bad = []
+
+    def is_doc(n):
+        return isinstance(n, ast.Expr) and isinstance(n.value, ast.Constant) and isinstance(n.value.value, str)
+
+    def simple_assign(n):
+        return isinstance(n, ast.Assign) and len(n.targets) == 1 and isinstance(n.targets[0], ast.Name)
+
+    for n in tree.body:
+        if is_doc(n) or isinstance(n, (ast.ImportFrom, ast.FunctionDef)) or simple_assign(n):
+            continue
+        if isinstance(n, ast.AnnAssign) and isinstance(n.target, ast.Name) and n.value is not None:
+            continue
+        if isinstance(n, ast.ClassDef):
+            if n.keywords or n.decorator_list or not n.bases:
+                bad.append(f'line {n.lineno}: class header of {n.name}')
+            for m in n.body:
+                if is_doc(m) or isinstance(m, ast.Pass) or simple_assign(m):
+                    continue
+                if isinstance(m, ast.AnnAssign) and isinstance(m.target, ast.Name) and m.simple:
+                    continue
+                bad.append(f'line {m.lineno}: {type(m).__name__} in the body of class {n.name}')
+            continue
+        what = type(n).__name__
+        if isinstance(n, ast.Assign):
+            what = 'assignment to ' + ', '.join(type(t).__name__ for t in n.targets)
+        bad.append(f'line {n.lineno}: {what} is not a declaration')
+    return bad
+
+
+class _Placeholder(type):
+    """stands for an unbound name while the import is repeated: subscriptable, item-assignable"""
+    def __getitem__(cls, item):
+        return cls
+
+    def __setitem__(cls, key, value):
+        pass
+
+
 def python_verdict(text):
-    """CPython's parser, then import (module body executed) against the stub pydantic"""
+    """CPython's parser, the declaration grammar over its AST, then import (module body executed) against
+    the stub pydantic.  A NameError is name resolution, not syntax (C09 / C11 / C12): the name is pre-bound
+    to a placeholder and the import is repeated, so that any OTHER failure still surfaces; counted."""
     try:
         tree = ast.parse(text)
     except SyntaxError as e:
         return ['py-syntax'], f'SyntaxError: {e.msg} (line {e.lineno})'
-    # names the module binds at top level (a NameError on one of THESE is a definition that comes too
-    # late in the file: the order of definitions is C11's subject, not syntax - counted, not judged here)
-    bound = set()
-    for node in tree.body:
-        if isinstance(node, (ast.ClassDef, ast.FunctionDef)):
-            bound.add(node.name)
-        elif isinstance(node, ast.Assign):
-            bound |= {t.id for t in node.targets if isinstance(t, ast.Name)}
+    fails, why = [], []
+    g = py_decl_grammar(tree)
+    if g:
+        fails.append('py-grammar')
+        why += g[:3]
     saved = list(sys.path)
     mods = {k: sys.modules.pop(k) for k in list(sys.modules) if k == 'pydantic' or k.startswith('pydantic.')}
     sys.path.insert(0, STUB)
     code = compile(tree, '<generated>', 'exec')
     late = {}
     try:
-        for _ in range(50):
+        for _ in range(60):
             m = types.ModuleType('generated_by_typeshare')
             m.__dict__.update(late)
             try:
                 exec(code, m.__dict__)
                 break
             except NameError as e:
-                if getattr(e, 'name', None) in bound and e.name not in late:
-                    late[e.name] = type(e.name, (), {})     # placeholder class; the real definition rebinds it
+                name = getattr(e, 'name', None)
+                if name and name not in late:
+                    late[name] = _Placeholder(name, (), {})
                     continue
-                return ['py-import'], f'{type(e).__name__}: {e}'
+                raise
         if late:
-            FORWARD.append(sorted(late))
-    except Exception as e:      # noqa: any failure of the import is the observation
-        return ['py-import'], f'{type(e).__name__}: {e}'
+            NAME_ERRORS.append(sorted(late))
+    except Exception as e:      # noqa: any other failure of the import is the observation
+        fails.append('py-import')
+        why.append(f'{type(e).__name__}: {e}')
     finally:
         sys.path[:] = saved
         for k in [k for k in sys.modules if k == 'pydantic' or k.startswith('pydantic.')]:
             del sys.modules[k]
         sys.modules.update(mods)
-    return [], ''
+    return fails, '; '.join(why)
 
 
 def observe(lang, text):
@@ -268,22 +313,29 @@ WITNESSES = [
 
 
 def lex_expectations(chk):
-    """the snapshot expectation files are themselves lexed (an ill-formed expectation is a finding)"""
+    """the snapshot expectation files are themselves judged (an ill-formed expectation is a finding): extracted
+    lexer, template recogniser, CPython parser / declaration grammar / import"""
     files = []
     for lang in LANGS:
         files += [(lang, f) for f in sorted(glob.glob(str(vf.REPO / 'core' / 'data' / 'tests' / '*' / f'output.{EXT[lang]}')))]
     texts = [open(f, encoding='utf-8').read() for _, f in files]
     ans = vf.model([f'(c10_lex {l} {S(t)})' for (l, _), t in zip(files, texts)])
-    bad = []
+    blame = {'scala-default': 'C10-scala-default', 'py-grammar': 'C10-python-generic-alias'}
     for (lang, f), t, a in zip(files, texts, ans):
         chk.count('expectation_files')
+        decls, labels, fails, why = observe(lang, t)
         if a[0] != 'balanced':
-            bad.append((lang, f, vf.dump_sx(a)))
-        if lang == 'python':
-            fl, w = python_verdict(t)
-            if fl:
-                bad.append((lang, f, w))
-    return bad
+            fails = fails + ['lex']
+            why = why + [vf.dump_sx(a)]
+        name = pathlib.Path(f).parent.name
+        for k in fails:
+            if k == 'py-grammar' and not any('Subscript' in w for w in why):
+                k = 'py-grammar-other'
+            if k in blame and chk.known(blame[k], {'file': f}):
+                chk.count(f'expectation_file_in_class.{blame[k]}')
+            else:
+                chk.violation(f'expectation-{lang}-{name}', {'lang': lang, 'file': f, 'failures': fails, 'why': why},
+                              f'snapshot expectation {f} is not well-formed: {k}: {"; ".join(why)[:400]}')
 
 
 def run(chk):
@@ -296,7 +348,7 @@ def run(chk):
         'the six lexers of Spec/C10Spec.v are the definition of "delimiters, string literals and comments are closed" (no compiler of the five non-Python languages is installed)',
         'grammar conformance is validated, not proved: CPython ast.parse + import against lib/pydantic_stub for Python; template recognisers of lib/extract.py for the others',
         'doc text is restricted to the safe predicate c10_doc_ok (doc-induced breakage is C15)',
-        'a Python NameError at import on a name the module defines LATER is an ordering defect (C11), counted but not judged here; any other import failure is judged',
+        'a Python NameError at import is name resolution (C09 / C11 / C12), counted but not judged here; any other import failure is judged',
     ]
     chk.prepare(need_cli=False)
     if not chk.harness_ok:
@@ -326,20 +378,15 @@ def run(chk):
             snaps.append((lang, cfgs[lang][1], src, {'snapshot': pathlib.Path(f).parent.name}))
     drift += judge(chk, snaps, 'snapshot')
     # 4. expectation files
-    for lang, f, what in lex_expectations(chk):
-        name = pathlib.Path(f).parent.name
-        if lang == 'scala' and False:
-            pass
-        chk.violation(f'expectation-{lang}-{name}', {'lang': lang, 'file': f, 'verdict': what},
-                      f'snapshot expectation {f} is not well-formed: {what}')
+    lex_expectations(chk)
     if drift and not [v for v in chk.violations if not v[2]]:
         payload, what = drift[0]
         chk.violation('correspondence', dict(payload, disagreements=len(drift)),
                       f'model and real generator disagree on {len(drift)} case(s) although every real output is well-formed: {what}', no_input=True)
     chk.counters['render_drift'] = len(drift)
-    chk.counters['python_forward_references_left_to_C11'] = len(FORWARD)
-    if FORWARD:
-        chk.notes.append(f'{len(FORWARD)} Python module(s) use a name at import time before its definition (e.g. {FORWARD[0]}): definition order is C11\'s subject (C11-renamed), not judged here')
+    chk.counters['python_name_errors_left_to_C09_C11_C12'] = len(NAME_ERRORS)
+    if NAME_ERRORS:
+        chk.notes.append(f'{len(NAME_ERRORS)} Python module(s) raise NameError at import (e.g. on {NAME_ERRORS[0]}): a name used before / without its definition is name resolution (C09, C11, C12), not syntax; counted, not judged here')
 
 
 def replay(chk, path):
